@@ -4,7 +4,7 @@
 set -e
 export GOFLAGS=-mod=mod GOPROXY=off GOSUMDB=off GOTOOLCHAIN=local
 REPO=${VERIF_REPO:-/repo}
-OUT=$1; shift
+OUT=$(realpath -m "$1"); shift
 H=/verif/harness
 OV=$(mktemp /tmp/verif-overlay.XXXXXX.json)
 trap 'rm -f $OV' EXIT
